@@ -18,8 +18,49 @@ def seqVerdicts (v : Validator) : List Nat → List String
 
 def parseTagLists (s : String) : Option (List (List Nat)) := (s.splitOn "/").mapM parseNatList
 
+/-- `c11.uneven <n> <p> <own> <copies> <fill>`: the per-shard inputs of the request with abstract tags.
+The duplicated report D has tag `p + n * 100000` (owned by shard `p`), the fillers have the tags
+`0, 1, 2, …` (pairwise distinct, different from D's; where a real filler is routed is random, the
+verdict does not depend on it).  Shard `p` gets `own` reports (one of them D if a copy is submitted
+there), every other shard `fill` fillers plus the copies submitted there. -/
+def unevenInputs (n p own : Nat) (copies : Option (Nat × Nat)) (fill : Nat) : Option (List (List Nat)) := do
+  let onP := match copies with
+    | some (a, b) => (if a == p then 1 else 0) + (if b == p then 1 else 0)
+    | none => 0
+  if !(p < n) || onP > 1 || onP > own then none else
+  match copies with
+  | some (a, b) => if !(a < n && b < n) then none else pure ()
+  | none => pure ()
+  let dTag := p + n * 100000
+  let rec go (s : Nat) (fuel : Nat) (next : Nat) (acc : List (List Nat)) : List (List Nat) :=
+    match fuel with
+    | 0 => acc.reverse
+    | fuel + 1 =>
+      let k := if s == p then own - onP else fill
+      let l := (List.range k).map (· + next)
+      let l := match copies with
+        | some (a, b) =>
+          let l := if a == s then l.take (min l.length 1) ++ [dTag] ++ l.drop (min l.length 1) else l
+          if b == s then l ++ [dTag] else l
+        | none => l
+      go (s + 1) fuel (next + k) (l :: acc)
+  pure (go 0 n 0 [])
+
+def parseCopies (s : String) : Option (Option (Nat × Nat)) :=
+  if s == "-" then some none else
+  match parseNatList s with
+  | some [a, b] => some (some (a, b))
+  | _ => none
+
 def handle (toks : List String) : Option String :=
   match toks with
+  | ["c11.uneven", n, p, own, copies, fill] => some <| (do
+      let n ← n.toNat?
+      let ls ← unevenInputs n (← p.toNat?) (← own.toNat?) (← parseCopies copies) (← fill.toNat?)
+      let inputs := fun s => ls.getD s []
+      -- the model of the code: the unguarded validator step on every shard
+      let verdicts := (List.range n).map fun d => detectIf (fun _ _ => true) n inputs d
+      pure (if verdicts.any Option.isSome then "rejected:on-picker-shard" else "accepted")).getD "bad-request"
   | ["c11.pick", hex, n] => some <| (do
       let bytes ← parseHexBytes hex
       if bytes.length != IpaVerif.Generated.Dedup.tagSize then none else
@@ -106,6 +147,12 @@ def oracle (toks : List String) (impl : String) : Option String :=
               else if impl.startsWith "rejected" then "fails duplicate reported by a shard other than shard_picker(tag)"
               else s!"fails the same encrypted report was submitted twice but the query was not rejected ({impl})")
       else pure (if impl == "accepted" then "holds" else s!"fails pairwise distinct reports were not accepted ({impl})")).getD "unknown"
+  | ["c11.uneven", n, p, own, copies, _fill] => some <|
+      (if copies == "-" then
+        (if impl == "accepted" then "holds" else s!"fails pairwise distinct reports were not accepted ({impl})")
+       else if impl == "rejected:on-picker-shard" then "holds"
+       else if impl.startsWith "rejected" then "fails duplicate reported by a shard other than shard_picker(tag)"
+       else s!"fails the same encrypted report was submitted twice (shards {copies} of {n}) and its tag is owned by shard {p}, which holds {own} report(s) of its own, but the query was not rejected ({impl})")
   | ["c11.big", count, i, j] => some <|
       (if impl == "rejected:on-picker-shard" then "holds"
        else s!"fails accepted-or-not-rejected: reports {i} and {j} of the {count} encrypted reports on one shard are byte-identical but the query did not fail with DuplicateBytes ({impl})")
